@@ -126,3 +126,27 @@ Theorem C07_any_clock_every_crash_point_of_a_clean : forall (w : world sym) goal
   cache_addressed sym_eqb SContent (run_acts_sym pre w).
 Proof. exact coarse_clean_crash_cache_addressed_sym. Qed.
 Print Assumptions C07_any_clock_every_crash_point_of_a_clean.
+
+(* ---- clean under every interleaving of its rule threads (round 4; Model/CleanFine.v, Proofs/CleanFine*.v) ----
+   Every state of every run of a clean satisfies the disk invariant (each step is a step of the primitive-action LTS or
+   the identity); under any clock, the in-flight invariant. *)
+From Coq Require Import Relations.
+From Ruler Require Import Bytes AList RuleSyntax TopoSort World Work Build Ops Inv InvFacts BuildSpec C01Facts C02Sym CoarseInv C18CoarseFacts Sched Fine FineCor CleanFine CleanFineBasic CleanFineInv CleanFineFacts.
+Local Open Scope nat_scope.
+
+Theorem C07_clean_every_state_of_every_interleaving : forall (w : world sym) rp goal w1 tbl pack ch,
+  disk_inv sym_eqb SContent w -> init_dir sym w = Ok (w1, tbl) -> get_nodes sym w1 rp goal = Ok pack ->
+  let blobs := node_blobs SContent tbl (p_nodes pack) in
+  let st := crun_sym blobs ch (cinit sym w1 (length blobs)) in
+  disk_inv sym_eqb SContent (cs_world st) /\
+  clos_refl_trans (world sym) (step sym_eqb SContent) w (cs_world st).
+Proof. exact clean_fine_every_state_inv_sym. Qed.
+Print Assumptions C07_clean_every_state_of_every_interleaving.
+
+Theorem C07_clean_every_state_of_every_interleaving_any_clock : forall (w : world sym) rp goal w1 tbl pack ch,
+  coarse_inv sym_eqb SContent w -> init_dir sym w = Ok (w1, tbl) -> get_nodes sym w1 rp goal = Ok pack ->
+  let blobs := node_blobs SContent tbl (p_nodes pack) in
+  let st := crun_sym blobs ch (cinit sym w1 (length blobs)) in
+  pre_inv sym_eqb SContent (cs_world st).
+Proof. exact clean_fine_every_state_pre_inv_sym. Qed.
+Print Assumptions C07_clean_every_state_of_every_interleaving_any_clock.
